@@ -75,9 +75,9 @@ CONSTRAINT Constraint
 def _optimizer_space(tier):
     """(maxlen, start, alpha) triples explored exhaustively by TLC."""
     if tier == 'quick':
-        return [(2, 1, 1), (3, 3, 2), (2, 2, 3), (2, 4, 4), (4, 3, 5), (2, 12, 13)]
+        return [(2, 1, 1), (3, 3, 2), (2, 2, 3), (2, 4, 4), (4, 3, 5), (2, 12, 13), (4, 1, 14)]
     return [(3, 1, 1), (4, 3, 2), (3, 2, 3), (3, 2, 1), (3, 4, 4), (5, 3, 5),
-            (3, 6, 1), (3, 7, 7), (3, 8, 8), (3, 9, 10), (3, 1, 9), (3, 12, 13), (3, 11, 12), (3, 5, 11)]
+            (3, 6, 1), (3, 7, 7), (3, 8, 8), (3, 9, 10), (3, 1, 9), (3, 12, 13), (3, 11, 12), (3, 5, 11), (5, 1, 14)]
 
 
 def _start_sig(start_id):
@@ -124,6 +124,7 @@ def _explore_optimizer(report, tier, mergeable):
                                 % (res.invariant_violated, start, alpha))
         start_sig = _start_sig(start)
         for rec in res.records:
+            rec['_space'] = (maxlen, start, alpha)
             out.append((rec, start_sig))
     return out
 
@@ -192,7 +193,13 @@ def _mutseq_check(prop, tier, judge_name):
     recs = _explore_optimizer(report, tier, mergeable)
     rng = random.Random(seed() * 1000003 + 11)
     limit = 2400 if tier == 'quick' else 50000
-    chosen = _pick(recs, limit, rng)
+    # a space small enough is replayed in full; the budget is spread over the others
+    per_space = {}
+    for item in recs:
+        per_space.setdefault(item[0].get('_space'), []).append(item)
+    small = [it for sp, items in sorted(per_space.items(), key=repr) if len(items) <= 700 for it in items]
+    large = [it for sp, items in sorted(per_space.items(), key=repr) if len(items) > 700 for it in items]
+    chosen = small + _pick(large, max(0, limit - len(small)), rng)
     jobs = []
     for i, (rec, start_sig) in enumerate(chosen):
         names_idx = i % len(ALT_NAMES) if tier == 'thorough' else (i % 2)
@@ -956,6 +963,11 @@ def c17(tier, replay=None):
             open_sig = None
             for e in evs:
                 ev = e['ev']
+                if ev in ('applying_evolution', 'applied_evolution') and any(
+                        a != e.get('app') for a in (e.get('evo_apps') or [])):
+                    # the evolutions a signal carries are the sending task's own
+                    report.fail({'class': 'signal-carries-another-apps-evolution', 'signal': ev},
+                                dict(detail, at=e))
                 if ev in ('applying_evolution', 'creating_models', 'applying_migration'):
                     if open_sig is not None and not (ev == 'creating_models' and
                                                      open_sig['ev'] == 'creating_models'):
@@ -1202,9 +1214,10 @@ PROPERTY LimitedRunTouchesOnlyItsApp
         if isinstance(d, list):
             return {i + 1: c for i, c in enumerate(d) if c}
         return {int(k): c for k, c in (d or {}).items() if c}
+    prev_rows_of = {}
     for rec, obs in zip(chosen, observations):
         report.coverage['evaluations'] += 1
-        label = ' '.join('%s(%s)' % (op['op'], ','.join(str(op[k]) for k in ('app', 'v', 'label', 'scoped')
+        label = ' '.join('%s(%s)' % (op['op'], ','.join(str(op[k]) for k in ('app', 'apps', 'v', 'label', 'scoped')
                                                            if k in op)) for op in rec['hist'])
         nontrivial.add('ledger:' + label)
         for st in obs['steps']:
@@ -1220,25 +1233,44 @@ PROPERTY LimitedRunTouchesOnlyItsApp
             if st['op']['op'] == 'runfail' and not st.get('fault_fired'):
                 report.notes.append('ledger: planned fault did not fire in %s' % label)
                 break
-            if st['op']['op'] in ('run', 'runonly', 'runfail'):
-                if st['outcome'] != eop['outcome']:
-                    report.fail(dict(fp, **{'class': 'run-outcome-differs', 'observed': st['outcome'],
-                                            'expected': eop['outcome']}), detail)
-                    break
-                want = {a: sorted(v) for a, v in eop['executed'].items()}
-                if st['executed'] != want:
-                    report.fail(dict(fp, **{'class': 'executed-labels-differ'}), detail)
-            elif st['ok'] != eop['ok']:
-                report.fail(dict(fp, **{'class': 'command-outcome-differs', 'expected_ok': eop['ok']}), detail)
-                break
-            rows = {a: bag(exp['rec'][a]) for a in ('a1', 'a2')}
-            if {a: {k: v for k, v in st['rows'][a].items() if v} for a in st['rows']} != rows:
-                report.fail(dict(fp, **{'class': 'evolution-rows-differ',
-                                        'duplicates': any(v > 1 for a in st['rows'] for v in st['rows'][a].values())}),
-                            detail)
+            # --- the property's own oracle, whatever the specification expects -------------------
+            have_rows = {a: {k: v for k, v in st['rows'][a].items() if v} for a in st['rows']}
+            if any(v > 1 for a in have_rows for v in have_rows[a].values()):
+                report.fail(dict(fp, **{'class': 'label-recorded-twice'}), detail)
                 break
             if any(v > 1 for a in st['execs'] for v in st['execs'][a].values()):
                 report.fail(dict(fp, **{'class': 'evolution-executed-twice'}), detail)
+                break
+            if st['op']['op'] in ('run', 'runonly', 'runfail'):
+                prev = prev_rows_of.get(id(obs), {})
+                again = sorted((a, l) for a, ls in (st.get('executed') or {}).items() for l in ls
+                               if prev.get(a, {}).get(l))
+                if again:
+                    report.fail(dict(fp, **{'class': 'recorded-evolution-executed-again'}), dict(detail, labels=again))
+                    break
+                if st.get('outcome') in ('failed', 'rejected', 'nothing') and prev and have_rows != prev:
+                    report.fail(dict(fp, **{'class': 'incomplete-run-changed-the-ledger', 'outcome': st.get('outcome')}),
+                                dict(detail, rows_before=prev))
+                    break
+            prev_rows_of[id(obs)] = have_rows
+            # --- agreement with Ledger.tla: a disagreement alone is drift, not a violation ---------
+            rows = {a: bag(exp['rec'][a]) for a in ('a1', 'a2')}
+            if st['op']['op'] in ('run', 'runonly', 'runfail'):
+                if st['outcome'] != eop['outcome']:
+                    report.spec_drift('Ledger.tla expects the run to be %s, it was %s: %s (step %d)'
+                                      % (eop['outcome'], st['outcome'], label, st['index']))
+                    break
+                want = {a: sorted(v) for a, v in eop['executed'].items()}
+                if st['executed'] != want:
+                    report.spec_drift('Ledger.tla expects %s executed, code executed %s: %s' % (want, st['executed'], label))
+                    break
+            elif st['ok'] != eop['ok']:
+                report.spec_drift('Ledger.tla expects the command to %s, it did not: %s (step %d)'
+                                  % ('succeed' if eop['ok'] else 'refuse', label, st['index']))
+                break
+            if have_rows != rows:
+                report.spec_drift('Ledger.tla expects rows %s, code has %s: %s (step %d)' % (rows, have_rows, label, st['index']))
+                break
         if obs.get('listed') is not None and obs['steps']:
             last = obs['steps'][-1]
             have = {a: {k: v for k, v in obs['listed'][a].items() if v} for a in obs['listed']}
@@ -1262,8 +1294,8 @@ def c12(tier, replay=None):
     from .absmodel import norm_mutation, short
     report = Report('C12', tier)
     rng = random.Random(seed() * 4241 + 5)
-    space = [(2, 1, 1), (2, 3, 2), (2, 12, 13)] if tier == 'quick' else \
-        [(2, 1, 1), (3, 3, 2), (2, 2, 3), (2, 2, 1), (2, 12, 13), (2, 9, 10), (2, 7, 7)]
+    space = [(2, 1, 1), (2, 3, 2), (2, 12, 13), (1, 2, 3), (1, 10, 3)] if tier == 'quick' else \
+        [(2, 1, 1), (3, 3, 2), (2, 2, 3), (2, 2, 1), (2, 12, 13), (2, 9, 10), (2, 7, 7), (2, 10, 3)]
     limit = 180 if tier == 'quick' else 3000
     recs = []
     for maxlen, start, alpha in space:
@@ -1291,12 +1323,22 @@ INVARIANT ExecuteOnlyIfReaches
         hit = None
         for x, y in zip(item[0]['seq'], item[0]['pert']):
             if x != y:
-                hit = (x.get('k'), x.get('ftype') not in (None, 'None') and x.get('k') == 'Chg')
+                def _keys(m_):
+                    a_ = m_.get('attrs') or {}
+                    return set(a_ if isinstance(a_, dict) else dict(a_))
+                hit = (x.get('k'), x.get('ftype') not in (None, 'None') and x.get('k') == 'Chg',
+                       # which attribute the perturbation states, and on what kind of column
+                       tuple(sorted(_keys(y) - _keys(x))), x.get('ftype') if x.get('k') == 'Add' else None)
                 break
         strata.setdefault((item[0]['kind'], item[0]['prediction'],
                            item[0].get('npending', 1) == 0, item[0].get('reason'), hit), []).append(item)
     chosen = []
     keys = sorted(strata, key=repr)
+    # every stratum is represented at least once, whatever the budget says; which strata get a
+    # second, third ... member is decided by the seed
+    limit = max(limit, len(keys))
+    report.notes.append('C12: %d strata (kind, prediction, reason, mutation hit)' % len(keys))
+    rng.shuffle(keys)
     for k in keys:
         rng.shuffle(strata[k])
     while len(chosen) < limit and any(strata[k] for k in keys):
@@ -1353,6 +1395,13 @@ INVARIANT ExecuteOnlyIfReaches
                 # the simulation reached the models and execution failed on the
                 # data (C01/C02 territory, rolled back): not a C12 matter
                 report.notes.append('executed then failed (%s): %s' % (obs['error_msg'][:80], pert))
+            elif obs.get('schema_vs_fresh') and rec['prediction'] != 'reaches' and not (
+                    set(rec.get('hazards') or []) or obs['schema_vs_fresh'] == []):
+                # judged without the code's own diff: the database is not what the models are
+                report.fail({'class': 'executed-and-database-differs-from-models',
+                             'predicted': rec['prediction'], 'kind': rec['kind'],
+                             'kinds': sorted(set(d_.get('kind') for d_ in obs['schema_vs_fresh']))},
+                            dict(detail, schema_vs_fresh=obs['schema_vs_fresh'][:6]))
             elif not (obs['after_diff_empty'] and not obs['after_required']):
                 report.fail({'class': 'executed-without-reaching-models',
                              'predicted': rec['prediction'],
@@ -2007,17 +2056,33 @@ SPECIFICATION Spec
 CONSTANTS
   MaxLen = %d
   EmitRecords = TRUE
+  FocusLabels = FALSE
   AppLabelFixed = %s
 CONSTRAINT Constraint
 ''' % (maxlen, 'TRUE' if fixed else 'FALSE'))
     res = require_ok(run_tlc('Refs', cfg, workers=16, timeout=3000), 'Refs.tla')
     report.add_tlc('Refs (all relation assignments, sequences <= %d)' % maxlen, res.stats())
+    # label juggling: two app-label renames (one label set free and taken by the other app), then
+    # any one / two further mutations
+    jcfg = write_cfg('MC_Refs_juggle.cfg', '''
+SPECIFICATION Spec
+CONSTANTS
+  MaxLen = %d
+  EmitRecords = TRUE
+  FocusLabels = TRUE
+  AppLabelFixed = %s
+CONSTRAINT Constraint
+''' % (3 if tier == 'quick' else 4, 'TRUE' if fixed else 'FALSE'))
+    jres = require_ok(run_tlc('Refs', jcfg, workers=16, timeout=3000), 'Refs.tla (label juggling)')
+    report.add_tlc('Refs label juggling (two app-label renames first)', jres.stats())
+    juggle = [r for r in jres.records if len(r['seq']) >= 3]
     # the design (repaired) must satisfy the invariant and the action property
     dcfg = write_cfg('MC_Refs_design.cfg', '''
 SPECIFICATION Spec
 CONSTANTS
   MaxLen = 2
   EmitRecords = FALSE
+  FocusLabels = FALSE
   AppLabelFixed = TRUE
 CONSTRAINT Constraint
 INVARIANT NoDangling
@@ -2037,6 +2102,13 @@ PROPERTY RenameRewritesAll
         cold = [r for r in records if not r['dangling']]
         rng.shuffle(cold)
         records = hot[:4000] + cold[:8000]
+    if len(juggle) > (3000 if tier == 'quick' else 60000):
+        import random
+        from .common import seed
+        rngj = random.Random(seed() + 6)
+        rngj.shuffle(juggle)
+        juggle = juggle[:3000 if tier == 'quick' else 60000]
+    records = list(records) + juggle
     nontrivial = set()
     for rec in records:
         report.coverage['evaluations'] += 1
@@ -2051,7 +2123,15 @@ PROPERTY RenameRewritesAll
         report.coverage['traces_validated_against_impl'] += 1
         if len(rec['seq']) >= 2:
             nontrivial.add(_json.dumps([rec['psig0'], rec['seq']], sort_keys=True))
+        want_names = refs.expected_names(rec['psig0'], rec['seq'])
         for i, st in enumerate(out['steps']):
+            have_names = {a: ms for a, ms in st['names'].items() if ms}
+            if have_names != {a: ms for a, ms in want_names[i].items() if ms}:
+                # the mutation changed something else than the app / model it names
+                report.fail({'class': 'mutation-changed-another-target', 'after': st['step']['k']},
+                            {'start': rec['psig0'], 'sequence': label, 'step': i,
+                             'models_by_app': st['names'], 'named_by_the_mutations': want_names[i]})
+                break
             if st['dangling']:
                 report.fail({'class': 'dangling-reference', 'after': st['step']['k'],
                              'predicted_by_spec': bool(rec['dangling'])},
@@ -2623,6 +2703,7 @@ def _c13_alphabet_mutations(report, tier, nontrivial):
     rng = random.Random(seed() * 313 + 13)
     spaces = sorted(set((s_, a_) for _l, s_, a_ in _schema_space('quick')))
     done = 0
+    skipped_prepare = 0
     for start, alpha in spaces:
         maxlen = 1 if tier == 'quick' else 2
         res = require_ok(run_tlc('Schema', _schema_cfg(maxlen, start, alpha), workers=8, timeout=3000), 'Schema.tla')
@@ -2655,9 +2736,11 @@ def _c13_alphabet_mutations(report, tier, nontrivial):
                   'observed': {k: o2[k] for k in o2 if k not in ('loaded', 'tb', 'text')}}
             fp = {'part': 'alphabet', 'mutation': kinds}
             if o2.get('render_error') or o2.get('content_error'):
-                # a sequence the real simulation refuses is not a hint anybody gets
-                if 'SimulationFailure' in str(o2.get('content_error') or '') or \
+                # a sequence the task cannot even prepare (the simulation refuses it, or the optimised
+                # run fails: C03's and C01's business) is not a hint anybody gets to see
+                if o2.get('stage') == 'prepare' or 'SimulationFailure' in str(o2.get('content_error') or '') or \
                         'EvolutionBaselineMissing' in str(o2.get('content_error') or ''):
+                    skipped_prepare += 1
                     R.close_db()
                     continue
                 report.fail(dict(fp, **{'class': 'evolution-content-raises'}), d2)
@@ -2682,6 +2765,7 @@ def _c13_alphabet_mutations(report, tier, nontrivial):
                     report.notes.append('C13 part 4: effect comparison failed for %s: %s: %s'
                                         % (label, type(e).__name__, str(e)[:100]))
             R.close_db()
+    report.notes.append('C13 part 4: %d sequences whose task could not be prepared were left to C03 / C01' % skipped_prepare)
     return done
 
 
@@ -3018,16 +3102,23 @@ PROPERTY OtherDatabaseUntouched
         n_other = sum(1 for d in r['route'].values() if d == 'other')
         n_both = sum(1 for d in r['route'].values() if d == 'both')
         kinds = tuple(sorted(set(mu['k'] for mu in r['evo'])))
-        on_both = any(r['route'][mu['m'][0]] == 'both' for mu in r['evo'])
-        strata.setdefault((n_other, n_both, on_both, kinds, len(r['evo']), bool(r.get('catchAll'))), []).append(r)
+        on_both = any(mu['k'] == 'delapp' or r['route'][mu['m'][0]] == 'both' for mu in r['evo'])
+        strata.setdefault((n_other, n_both, on_both, kinds, len(r['evo']), bool(r.get('catchAll')), bool(r.get('oneProc'))), []).append(r)
     for k in strata:
         rng.shuffle(strata[k])
-    limit = 90 if tier == 'quick' else 1200
+    limit = 120 if tier == 'quick' else 1500
     chosen = []
-    while len(chosen) < limit and any(strata.values()):
-        for k in sorted(strata):
-            if strata[k] and len(chosen) < limit:
-                chosen.append(strata[k].pop())
+    # a quarter of the budget for what only shows when ONE process evolves both databases and the
+    # models really are split (shared mutation objects: DeleteApplication, RenameModel ...); the
+    # strata are visited in an order the seed decides, so that none is starved by its sort position
+    keys = sorted(strata)
+    rng.shuffle(keys)
+    hot = [k for k in keys if k[6] and (k[0] >= 1 or k[1] >= 1) and k[0] + k[1] < 3 + k[1]]
+    for group, quota in ((hot, limit // 4), (keys, limit)):
+        while len(chosen) < quota and any(strata[k] for k in group):
+            for k in group:
+                if strata[k] and len(chosen) < quota:
+                    chosen.append(strata[k].pop())
     with ThreadPoolExecutor(16) as ex:
         observations = list(ex.map(lambda ir: RT.replay(ir[1], ir[0]), enumerate(chosen)))
     nontrivial = set()
@@ -3039,8 +3130,8 @@ PROPERTY OtherDatabaseUntouched
             report.notes.append('setup failed: %r' % (obs['errors'][:1],))
             continue
         split = len(set(rec['route'].values())) >= 2
-        both = len(set(rec['route'][m['m'][0]] for m in rec['evo'])) >= 2 or \
-            any(rec['route'][m['m'][0]] == 'both' for m in rec['evo'])
+        both = len(set(rec['route'].get(m['m'][0], 'both') for m in rec['evo'])) >= 2 or \
+            any(rec['route'].get(m['m'][0], 'both') == 'both' for m in rec['evo'])
         if split and both:
             nontrivial.add(json_key(rec['evo'], json_key(rec['route'], rec['order'])))
         for st in obs['steps']:
@@ -3064,7 +3155,9 @@ PROPERTY OtherDatabaseUntouched
                 report.fail(dict(fp, **{'class': 'signature-not-what-the-router-allows'}), detail)
             if st['other_changed']:
                 report.fail(dict(fp, **{'class': 'other-database-modified'}), detail)
-            mine = [mu for mu in rec['evo'] if rec['route'][mu['m'][0]] in (d, 'both')]
+            here = [m_ for m_, d_ in rec['route'].items() if d_ in (d, 'both')]
+            mine = [mu for mu in rec['evo']
+                    if (mu['k'] == 'delapp' and here) or (mu['k'] != 'delapp' and rec['route'][mu['m'][0]] in (d, 'both'))]
             if mine and ('shop', 'e1') not in [tuple(x)[:2] for x in (st['recorded'] or [])]:
                 # what was executed on d is on record on d (whatever the router says about
                 # Django Evolution's own models)
